@@ -18,7 +18,7 @@ def pool():
     global _POOL
     if _POOL is None:
         n = int(os.environ.get('VF_JOBS', str(min(16, os.cpu_count() or 4))))
-        _POOL = mp.get_context('fork').Pool(n)
+        _POOL = mp.get_context('forkserver').Pool(n)  # clean workers: forking after cv2/torch/OpenMP threads exist in the parent can dead-lock
     return _POOL
 
 
